@@ -150,6 +150,11 @@ pub struct ProblemSpec {
     pub starts: Vec<St>,
     pub goal: GoalSpec,
     pub world: usize,
+    /// this problem's own state space (same kind and layout as the scenario's, other bounds /
+    /// resolution); `None` = the scenario's space. A later `setup` may legitimately come with a
+    /// different space object.
+    #[serde(default, skip_serializing_if = "Option::is_none")]
+    pub space: Option<SpaceSpec>,
 }
 
 #[derive(Serialize, Deserialize, Clone, Copy, Debug, PartialEq, Eq, Hash, PartialOrd, Ord)]
